@@ -1,10 +1,6 @@
-import Qentem.Proofs.TmplLoop
+import Qentem.Proofs.TmplSvarParse
 /-!
-# C02 stage 7 — trees of segments, `<if>` chains and `<loop>`s, nested to any depth
-
-Generic in the chain of enclosing loops (`LoopD`): the parser lemmas of the earlier stages restated
-for a state with any `loopChain`, the loop step under a parent chain, the renderer against the
-reference interpreter under the bindings of the enclosing loops.
+# C02 stage 7/8/9 — trees of segments, inline `{if}`s, super variables, `<if>` chains and `<loop>`s: the parse
 -/
 set_option linter.unusedSectionVars false
 set_option linter.unusedVariables false
@@ -15,859 +11,6 @@ open Qentem.Generated.Tmpl
 
 variable {R : Type}
 
-/-! ### the step lemmas of the earlier stages for any loop chain -/
-
-/-- the `while (true)` of `case MathID` over the operands of the expression text: every
-`{var:path}` is skipped, the `}` after the last stretch ends the tag -/
-theorem mathScan_partsL (c : List Nat) (ch : List LoopRef) (hn : c.length + 16 < 4294967296) (stk : List (Frame R))
-    (acc : List (Tag R)) (last post : List Nat) (hl : plainL last) :
-    ∀ (parts : List (List Nat × List Nat)) (A : List Nat) (fuel o m o' m' : Nat),
-      c = A ++ (printMP parts ++ last ++ [125] ++ post) → (∀ tp ∈ parts, plainL tp.1 ∧ plainL tp.2) →
-      parts.length + 1 ≤ fuel →
-      next c A.length = .ok (o, m) →
-      next c (A.length + (printMP parts ++ last).length + 1) = .ok (o', m') →
-      mathScan c fuel (stAtL ch stk acc o m : PState R) 0 =
-        .ok (stAtL ch stk acc o' m', A.length + (printMP parts ++ last).length + 1) := by
-  have hle : W1.lineEndID = 1 := by decide
-  have hmi : W1.mathID = 4 := by decide
-  intro parts
-  induction parts with
-  | nil =>
-    intro A fuel o m o' m' hc _ hf hnext hfin
-    simp only [printMP, List.nil_append] at hc hfin ⊢
-    have hc1 : c = A ++ (last ++ ([125] ++ post)) := by rw [hc]; simp [List.append_assoc]
-    have hrun := next_run c A last _ hc1 hl
-    have hclose : next c (A.length + last.length) = .ok (A.length + last.length + 1, 1) := by
-      apply next_at_close
-      have := get_mid (A ++ last) [125] post 0 (by simp)
-      simpa [hc, List.append_assoc] using this
-    rw [hrun, hclose] at hnext
-    simp only [Except.ok.injEq, Prod.mk.injEq] at hnext
-    obtain ⟨rfl, rfl⟩ := hnext
-    obtain ⟨f, rfl⟩ : ∃ f, fuel = f + 1 := ⟨fuel - 1, by omega⟩
-    have h2 : finderNext c (stAtL ch stk acc (A.length + last.length + 1) 1) = .ok (stAtL ch stk acc o' m') :=
-      finderNext_stAtL c ch stk acc _ 1 _ _ hfin
-    have hm : (stAtL ch stk acc (A.length + last.length + 1) 1 : PState R).mtch = 1 := rfl
-    simp only [mathScan, hm, hle, ne_eq, not_true_eq_false, and_false, if_false, pure, Except.pure, bind,
-      Except.bind, if_true, h2]
-    rfl
-  | cons tp r ih =>
-    obtain ⟨t, p⟩ := tp
-    intro A fuel o m o' m' hc hall hf hnext hfin
-    have htp := hall (t, p) (List.mem_cons_self ..)
-    simp only at htp
-    have hallr : ∀ tp ∈ r, plainL tp.1 ∧ plainL tp.2 := fun x hx => hall x (List.mem_cons_of_mem _ hx)
-    simp only [List.length_cons] at hf
-    obtain ⟨f, rfl⟩ : ∃ f, fuel = f + 1 := ⟨fuel - 1, by omega⟩
-    have hc1 : c = A ++ (t ++ ([123, 118, 97, 114, 58] ++ p ++ [125] ++ (printMP r ++ last ++ [125] ++ post))) := by
-      rw [hc]; simp [printMP, List.append_assoc]
-    have hrun := next_run c A t _ hc1 htp.1
-    have g := fun i (hi : i < 5) => get_mid (A ++ t) [123, 118, 97, 114, 58]
-      (p ++ [125] ++ (printMP r ++ last ++ [125] ++ post)) i (by simpa using hi)
-    have hc2 : c = (A ++ t) ++ ([123, 118, 97, 114, 58] ++ (p ++ [125] ++ (printMP r ++ last ++ [125] ++ post))) := by
-      rw [hc1]; simp [List.append_assoc]
-    have hlat : (A ++ t).length = A.length + t.length := by simp
-    have hvar : next c (A.length + t.length) = .ok (A.length + t.length + 5, 2) := by
-      rw [← hlat]
-      apply next_at_var c _ (by omega)
-      · have := g 0 (by omega); rw [hc2]; simpa using this
-      · have := g 1 (by omega); rw [hc2]; simpa using this
-      · have := g 2 (by omega); rw [hc2]; simpa using this
-      · have := g 3 (by omega); rw [hc2]; simpa using this
-      · have := g 4 (by omega); rw [hc2]; simpa using this
-    rw [hrun, hvar] at hnext
-    simp only [Except.ok.injEq, Prod.mk.injEq] at hnext
-    obtain ⟨rfl, rfl⟩ := hnext
-    have hc3 : c = (A ++ t ++ [123, 118, 97, 114, 58]) ++ (p ++ ([125] ++ (printMP r ++ last ++ [125] ++ post))) := by
-      rw [hc1]; simp [List.append_assoc]
-    have hl3 : (A ++ t ++ [123, 118, 97, 114, 58]).length = A.length + t.length + 5 := by simp; omega
-    have hrun2 := next_run c _ p _ hc3 htp.2
-    rw [hl3] at hrun2
-    have hclose : next c (A.length + t.length + 5 + p.length) = .ok (A.length + t.length + 5 + p.length + 1, 1) := by
-      apply next_at_close
-      have := get_mid (A ++ t ++ [123, 118, 97, 114, 58] ++ p) [125] (printMP r ++ last ++ [125] ++ post) 0 (by simp)
-      have hl5 : (A ++ t ++ [123, 118, 97, 114, 58] ++ p).length + 0 = A.length + t.length + 5 + p.length := by
-        simp; omega
-      rw [hl5] at this
-      have hX : c = (A ++ t ++ [123, 118, 97, 114, 58] ++ p) ++ ([125] ++ (printMP r ++ last ++ [125] ++ post)) := by
-        rw [hc1]; simp [List.append_assoc]
-      rw [hX, this]; rfl
-    have hc4 : c = (A ++ (t ++ ([123, 118, 97, 114, 58] ++ p ++ [125]))) ++ (printMP r ++ last ++ [125] ++ post) := by
-      rw [hc1]; simp [List.append_assoc]
-    have hl4 : (A ++ (t ++ ([123, 118, 97, 114, 58] ++ p ++ [125]))).length = A.length + t.length + 5 + p.length + 1 := by
-      simp; omega
-    have hle4 : A.length + t.length + 5 + p.length + 1 ≤ c.length := by
-      rw [← hl4, hc4]; simp
-    obtain ⟨o2, m2, hn2, _⟩ := next_safe_total c _ hle4
-    have hih := ih (A ++ (t ++ ([123, 118, 97, 114, 58] ++ p ++ [125]))) f o2 m2 o' m' hc4 hallr (by omega)
-      (by rw [hl4]; exact hn2)
-      (by rw [hl4, ← hfin, printMP_cons_len]; congr 1; omega)
-    rw [hl4] at hih
-    have h1 : finderNext c (stAtL ch stk acc (A.length + t.length + 5) 2) =
-        .ok (stAtL ch stk acc (A.length + t.length + 5 + p.length + 1) 1) :=
-      finderNext_stAtL c ch stk acc _ 2 _ _ (by rw [hrun2, hclose])
-    have h2 : finderNext c (stAtL ch stk acc (A.length + t.length + 5 + p.length + 1) 1) = .ok (stAtL ch stk acc o2 m2) :=
-      finderNext_stAtL c ch stk acc _ 1 _ _ hn2
-    have hm : (stAtL ch stk acc (A.length + t.length + 5) 2 : PState R).mtch = 2 := rfl
-    have hm1 : (stAtL ch stk acc (A.length + t.length + 5 + p.length + 1) 1 : PState R).mtch = 1 := rfl
-    have hcond : (2 : Nat) < 4 ∧ (2 : Nat) ≠ 1 := by decide
-    simp only [mathScan, hm, hle, hmi, hcond, and_self, if_true, h1, bind, Except.bind, pure, Except.pure, hm1,
-      ne_eq, show ¬ ((0 : Nat) + 1 = 0) by omega, not_false_eq_true, h2, Nat.add_sub_cancel]
-    rw [hih, printMP_cons_len]
-    congr 2
-    omega
-
-
-/-- `{math:e}` at `pre.length`: `stepMath` appends the Math tag with the scanned list -/
-theorem stepMath_segL (cfg : ScanCfg R) (c : List Nat) (ch : List LoopRef) (hn : c.length + 16 < 4294967296)
-    (pre e post : List Nat) (w : List Nat) (hw : w.length = 6)
-    (hc : c = pre ++ ((w ++ e ++ [125]) ++ post)) (hp : MathOk e)
-    (stk : List (Frame R)) (acc : List (Tag R)) (o' m' : Nat)
-    (hnext : next c (pre.length + 6 + e.length + 1) = .ok (o', m'))
-    (items : List (Item R))
-    (hex : exprs cfg c ch (pre.length + 6) (pre.length + 6 + e.length) = .ok items) :
-    stepMath cfg c (stAtL ch stk acc (pre.length + 6) 4) =
-      .ok (stAtL ch stk (acc ++ [.math items pre.length (pre.length + 6 + e.length + 1)]) o' m') := by
-  obtain ⟨parts, last, rfl, hl, hall⟩ := hp
-  have hc1 : c = (pre ++ w) ++ (printMP parts ++ last ++ [125] ++ post) := by
-    rw [hc]; simp [List.append_assoc]
-  have hl1 : (pre ++ w).length = pre.length + 6 := by simp [hw]
-  have hle1 : pre.length + 6 ≤ c.length := by rw [← hl1, hc1]; simp
-  obtain ⟨o1, m1, hn1, _⟩ := next_safe_total c _ hle1
-  have hplen : parts.length + 1 ≤ c.length + 2 := by
-    have : parts.length ≤ (printMP parts).length := by
-      clear hc hc1 hall hnext hex
-      induction parts with
-      | nil => simp
-      | cons tp r ih => obtain ⟨t, p⟩ := tp; simp [printMP] at ih ⊢; omega
-    have : (printMP parts).length ≤ c.length := by rw [hc1]; simp; omega
-    omega
-  have hscan := mathScan_partsL c ch hn stk acc last post hl parts (pre ++ w) (c.length + 2) o1 m1 o' m' hc1 hall hplen
-    (by rw [hl1]; exact hn1) (by rw [hl1]; exact hnext)
-  rw [hl1] at hscan
-  have h1 : finderNext c (stAtL ch stk acc (pre.length + 6) 4) = .ok (stAtL ch stk acc o1 m1) :=
-    finderNext_stAtL c ch stk acc _ 4 _ _ hn1
-  simp only [stepMath, h1, hscan, bind, Except.bind]
-  have hoff : (stAtL ch stk acc (pre.length + 6) 4 : PState R).off = pre.length + 6 := rfl
-  have hch : (stAtL ch stk acc o' m' : PState R).loopChain = ch := rfl
-  have hsuf : pre.length + 6 + (printMP parts ++ last).length + 1 - W1.inLineSuffixLength =
-      pre.length + 6 + (printMP parts ++ last).length := by
-    have : W1.inLineSuffixLength = 1 := by decide
-    rw [this]; omega
-  have hpre : pre.length + 6 - W1.mathPrefixLength = pre.length := by
-    have : W1.mathPrefixLength = 6 := by decide
-    rw [this]; omega
-  simp only [hoff, hch, hsuf, hpre, hex, ne_eq,
-    show ¬ (pre.length + 6 + (printMP parts ++ last).length + 1 = 0) by omega, not_false_eq_true, if_true]
-  rfl
-
-
-/-- `<if case="e">` at `pre.length`: the frame `stepIf` pushes -/
-theorem stepIf_printL (cfg : ScanCfg R) (c pre e post : List Nat) (ch : List LoopRef)
-    (hc : c = pre ++ (IFOPEN ++ e ++ [34, 62] ++ post)) (he : ∀ x ∈ e, x ≠ 34) (hpost : 0 < post.length)
-    (stk : List (Frame R)) (acc : List (Tag R)) (items' : List (Item R))
-    (hex : exprs cfg c ch (pre.length + 10) (pre.length + 10 + e.length) = .ok items')
-    (o1 m1 : Nat) (hnext : next c (pre.length + 12 + e.length) = .ok (o1, m1)) :
-    stepIf cfg c (stAtL ch stk acc (pre.length + 3) 9) =
-      .ok (stAtL ch (.ifT acc [] items' (pre.length + 12 + e.length) pre.length :: stk) [] o1 m1) := by
-  have ht := ifText_of c pre e post hc
-  have hpc := parseIfCase_print c pre e ht he
-  have hlt : pre.length + 12 + e.length < c.length := by rw [hc]; simp [IFOPEN]; omega
-  have h3 : W1.ifPrefixLength = 3 := by decide
-  simp only [stepIf, stAtL, hpc, bind, Except.bind, hlt, if_true, hex, pure, Except.pure, push, finderNext, hnext, h3,
-    Nat.add_sub_cancel]
-
-
-
-theorem stepIfEnd_printL (c : List Nat) (ch : List LoopRef) (stk : List (Frame R)) (pre0 : List (Tag R)) (done : List (IfCase R))
-    (cur : List (Item R)) (curOff off : Nat) (sub : List (Tag R)) (q o2 m2 : Nat)
-    (hnext : next c (q + 5) = .ok (o2, m2)) :
-    stepIfEnd c (stAtL ch (.ifT pre0 done cur curOff off :: stk) sub (q + 5) 10) =
-      .ok (stAtL ch stk (pre0 ++ [.ifT (done ++ [.mk cur sub curOff q]) off (q + 5)]) o2 m2) := by
-  have h5 : W1.ifSuffixLength = 5 := by decide
-  simp only [stepIfEnd, stAtL, finderNext, hnext, bind, Except.bind, h5, Nat.add_sub_cancel]
-
-
-theorem stepElse_printL (cfg : ScanCfg R) (c : List Nat) (ch : List LoopRef) (stk : List (Frame R)) (pre0 : List (Tag R))
-    (done : List (IfCase R)) (cur : List (Item R)) (curOff off : Nat) (sub : List (Tag R)) (q o2 m2 : Nat)
-    (h5 : c[q + 5]? = some 32) (h6 : c[q + 6]? = some 47) (h7 : c[q + 7]? = some 62)
-    (hnext : next c (q + 8) = .ok (o2, m2)) :
-    stepElse cfg c (stAtL ch (.ifT pre0 done cur curOff off :: stk) sub (q + 5) 11) =
-      .ok (stAtL ch (.ifT pre0 (done ++ [.mk cur sub curOff q]) [] (q + 8) off :: stk) [] o2 m2) := by
-  have hlt7 : q + 7 < c.length := (List.getElem?_eq_some_iff.mp h7).1
-  have hpl : W1.elsePrefixLength = 5 := by decide
-  have hscan : elseScan c (c.length + 1) (q + 5) = .ok (q + 7, false) := by
-    rw [show c.length + 1 = (c.length - 2) + 1 + 1 + 1 by omega]
-    have h6' : c[q + 5 + 1]? = some 47 := by rw [show q + 5 + 1 = q + 6 by omega]; exact h6
-    have h7' : c[q + 5 + 1 + 1]? = some 62 := by rw [show q + 5 + 1 + 1 = q + 7 by omega]; exact h7
-    simp [elseScan, rd_some c (q + 5) 32 h5, rd_some c _ 47 h6', rd_some c _ 62 h7', bind, Except.bind,
-      show q + 5 < c.length by omega, show q + 5 + 1 < c.length by omega, show q + 5 + 1 + 1 < c.length by omega,
-      show W1.multiLineLastChar = 62 by decide, show W1.ifPrefixFirst = 105 by decide]
-  simp only [stepElse, stAtL, hscan, bind, Except.bind, Bool.false_eq_true, if_false, hlt7, if_true, hpl,
-    Nat.add_sub_cancel, finderNext, hnext]
-
-
-theorem stepElif_printL (cfg : ScanCfg R) (c : List Nat) (ch : List LoopRef) (stk : List (Frame R)) (pre0 : List (Tag R))
-    (done : List (IfCase R)) (cur : List (Item R)) (curOff off : Nat) (sub : List (Tag R)) (q : Nat) (e : List Nat)
-    (h5 : c[q + 5]? = some 105) (ht : CaseText c (q + 7) e 2) (he : ∀ x ∈ e, x ≠ 34)
-    (hlt : q + 18 + e.length < c.length) (items2 : List (Item R))
-    (hex : exprs cfg c ch (q + 14) (q + 14 + e.length) = .ok items2) (o3 m3 : Nat)
-    (hnext : next c (q + 18 + e.length) = .ok (o3, m3)) :
-    stepElse cfg c (stAtL ch (.ifT pre0 done cur curOff off :: stk) sub (q + 5) 11) =
-      .ok (stAtL ch (.ifT pre0 (done ++ [.mk cur sub curOff q]) items2 (q + 18 + e.length) off :: stk) [] o3 m3) := by
-  have hpl : W1.elsePrefixLength = 5 := by decide
-  have hscan : elseScan c (c.length + 1) (q + 5) = .ok (q + 7, true) := by
-    have hl5 : q + 5 < c.length := (List.getElem?_eq_some_iff.mp h5).1
-    simp [elseScan, rd_some c (q + 5) 105 h5, bind, Except.bind, hl5,
-      show W1.multiLineLastChar = 62 by decide, show W1.ifPrefixFirst = 105 by decide,
-      show W1.ifAfterElseLength = 2 by decide]
-  have hpc := parseIfCase_at c (q + 7) e 2 ht he
-  rw [show q + 7 + 9 + e.length + 2 = q + 18 + e.length by omega, show q + 7 + 7 = q + 14 by omega] at hpc
-  have hcond : (q + 18 + e.length < c.length ∧ q + 14 + e.length ≠ 0) := ⟨hlt, by omega⟩
-  have hne : q + 14 + e.length ≠ 0 := by omega
-  simp only [stepElse, stAtL, hscan, bind, Except.bind, if_true, hpc, finderNext, hnext, hlt, hne, true_and, ne_eq,
-    not_false_eq_true, hex, hpl, Nat.add_sub_cancel]
-
-
-/-! ### the loop steps under a parent chain -/
-
-/-- `parseLoopAttributes` on the printed attributes ` set="S" value="V"` of a top-level loop -/
-theorem pla_printL (c : List Nat) (L : Nat) (S V : List Nat) (ht : LoopText c L S V)
-    (hS : ∀ x ∈ S, x ≠ 34) (hV : ∀ x ∈ V, x ≠ 34) (fuel lv : Nat)
-    (hS16 : S.length < 236) (hV8 : V.length < 256) (ch : List LoopRef)
-    (r : Option (Nat × Nat)) (hck : checkLoopVariable c (L + 11) ch = .ok r) :
-    parseLoopAttributes c (L + 21 + S.length + V.length) ch (fuel + 2) (L + 5) .none
-        ({ off := L, level := lv } : LoopFields) =
-      .ok { off := L, level := lv, set := mkV r (L + 11) S.length, valueOff := 20 + S.length,
-            valueLen := V.length } := by
-  have g1 := fun i (hi : i < 11) => ht.h1 i hi
-  have g2 := fun i (hi : i < 9) => ht.h2 i hi
-  have g3 := fun i (hi : i < 2) => ht.h3 i hi
-  have c5 : c[L + 5]? = some 32 := g1 5 (by omega)
-  have c6 : c[L + 6]? = some 115 := g1 6 (by omega)
-  have c7 : c[L + 7]? = some 101 := g1 7 (by omega)
-  have c8 : c[L + 8]? = some 116 := g1 8 (by omega)
-  have c9 : c[L + 9]? = some 61 := g1 9 (by omega)
-  have c10 : c[L + 10]? = some 34 := g1 10 (by omega)
-  have d0 : c[L + 11 + S.length]? = some 34 := g2 0 (by omega)
-  have d1 : c[L + 12 + S.length]? = some 32 := by have := g2 1 (by omega); rw [show L + 11 + S.length + 1 = L + 12 + S.length by omega] at this; exact this
-  have d2 : c[L + 13 + S.length]? = some 118 := by have := g2 2 (by omega); rw [show L + 11 + S.length + 2 = L + 13 + S.length by omega] at this; exact this
-  have d3 : c[L + 14 + S.length]? = some 97 := by have := g2 3 (by omega); rw [show L + 11 + S.length + 3 = L + 14 + S.length by omega] at this; exact this
-  have d4 : c[L + 15 + S.length]? = some 108 := by have := g2 4 (by omega); rw [show L + 11 + S.length + 4 = L + 15 + S.length by omega] at this; exact this
-  have d5 : c[L + 16 + S.length]? = some 117 := by have := g2 5 (by omega); rw [show L + 11 + S.length + 5 = L + 16 + S.length by omega] at this; exact this
-  have d6 : c[L + 17 + S.length]? = some 101 := by have := g2 6 (by omega); rw [show L + 11 + S.length + 6 = L + 17 + S.length by omega] at this; exact this
-  have d7 : c[L + 18 + S.length]? = some 61 := by have := g2 7 (by omega); rw [show L + 11 + S.length + 7 = L + 18 + S.length by omega] at this; exact this
-  have d8 : c[L + 19 + S.length]? = some 34 := by have := g2 8 (by omega); rw [show L + 11 + S.length + 8 = L + 19 + S.length by omega] at this; exact this
-  have e0 : c[L + 20 + S.length + V.length]? = some 34 := g3 0 (by omega)
-  -- iteration 1
-  have a1 : skipW c (L + 21 + S.length + V.length) (· == W1.spaceChar) (L + 5) = .ok (L + 6) := by
-    apply skipW_run c _ _ 1 (L + 5)
-    · intro i hi
-      have : i = 0 := by omega
-      subst this
-      exact ⟨32, c5, by decide⟩
-    · omega
-    · right; exact ⟨115, c6, by decide⟩
-  have b1 : andEqualAt (decide (L + 21 + S.length + V.length - (L + 6) > W1.setLength)) c (L + 6) W1.setStr = .ok true := by
-    have : decide (L + 21 + S.length + V.length - (L + 6) > W1.setLength) = true := by
-      simp only [show W1.setLength = 3 by decide, decide_eq_true_eq]; omega
-    simp only [andEqualAt, this, if_true]
-    apply isEqualAt_true
-    intro i hi
-    have hi3 : i < 3 := by simpa [show W1.setStr = [115, 101, 116] by decide] using hi
-    have : i = 0 ∨ i = 1 ∨ i = 2 := by omega
-    rcases this with h | h | h <;> subst h
-    · rw [show L + 6 + 0 = L + 6 by omega, c6]; rfl
-    · rw [show L + 6 + 1 = L + 7 by omega, c7]; rfl
-    · rw [show L + 6 + 2 = L + 8 by omega, c8]; rfl
-  have c1 : skipW c (L + 21 + S.length + V.length) (· != W1.equalChar) (L + 6 + W1.setLength) = .ok (L + 9) := by
-    rw [show W1.setLength = 3 by decide]
-    exact skipW_run c _ _ 0 (L + 9) (by intro i hi; omega) (by omega) (Or.inr ⟨61, c9, by decide⟩)
-  have dd1 : doSkipW c (L + 21 + S.length + V.length) (· == W1.spaceChar) (L + 9) = .ok (L + 10) := by
-    exact skipW_run c _ _ 0 (L + 10) (by intro i hi; omega) (by omega) (Or.inr ⟨34, c10, by decide⟩)
-  have ee1 : doSkipW c (L + 21 + S.length + V.length) (· != 34) (L + 10) = .ok (L + 11 + S.length) := by
-    apply skipW_run c _ _ S.length (L + 11)
-    · intro i hi
-      refine ⟨S[i], ht.s i hi, ?_⟩
-      have := hS S[i] (List.getElem_mem hi)
-      simpa using this
-    · omega
-    · right; exact ⟨34, d0, by decide⟩
-  simp only [parseLoopAttributes, a1, bind, Except.bind, show L + 6 < L + 21 + S.length + V.length by omega, if_true,
-    rd_some c (L + 6) 115 c6, show W1.setSortChar = 115 by decide, b1, pure, Except.pure, c1, dd1,
-    show L + 10 < L + 21 + S.length + V.length by omega, rd_some c (L + 10) 34 c10, ee1]
-  have hsv : setVar c ch ({ off := 0, len := 0, idLen := 0, level := 0 } : VarRef) (L + 10 + 1)
-      (trunc bits_VariableTag_Length (L + 11 + S.length - (L + 10 + 1))) = .ok (mkV r (L + 11) S.length) := by
-    have : trunc bits_VariableTag_Length (L + 11 + S.length - (L + 10 + 1)) = S.length := by
-      simp only [trunc, show bits_VariableTag_Length = 16 by decide]; omega
-    rw [show L + 10 + 1 = L + 11 by omega]
-    simp only [setVar, hck, bind, Except.bind, this]
-    cases r with
-    | none => rfl
-    | some ab => obtain ⟨a, b⟩ := ab; rfl
-  -- iteration 2
-  have a2 : skipW c (L + 21 + S.length + V.length) (· == W1.spaceChar) (L + 11 + S.length + 1) = .ok (L + 13 + S.length) := by
-    rw [show L + 13 + S.length = L + 11 + S.length + 1 + 1 by omega]
-    apply skipW_run c _ _ 1 (L + 11 + S.length + 1)
-    · intro i hi
-      have : i = 0 := by omega
-      subst this
-      exact ⟨32, by rw [show L + 11 + S.length + 1 + 0 = L + 12 + S.length by omega]; exact d1, by decide⟩
-    · omega
-    · right; exact ⟨118, by rw [show L + 11 + S.length + 1 + 1 = L + 13 + S.length by omega]; exact d2, by decide⟩
-  have b2 : andEqualAt (decide (L + 21 + S.length + V.length - (L + 13 + S.length) > W1.valueLength)) c
-      (L + 13 + S.length) W1.valueStr = .ok true := by
-    have : decide (L + 21 + S.length + V.length - (L + 13 + S.length) > W1.valueLength) = true := by
-      simp only [show W1.valueLength = 5 by decide, decide_eq_true_eq]; omega
-    simp only [andEqualAt, this, if_true]
-    apply isEqualAt_true
-    intro i hi
-    have hi5 : i < 5 := by simpa [show W1.valueStr = [118, 97, 108, 117, 101] by decide] using hi
-    have : i = 0 ∨ i = 1 ∨ i = 2 ∨ i = 3 ∨ i = 4 := by omega
-    rcases this with h | h | h | h | h <;> subst h
-    · rw [show L + 13 + S.length + 0 = L + 13 + S.length by omega, d2]; rfl
-    · rw [show L + 13 + S.length + 1 = L + 14 + S.length by omega, d3]; rfl
-    · rw [show L + 13 + S.length + 2 = L + 15 + S.length by omega, d4]; rfl
-    · rw [show L + 13 + S.length + 3 = L + 16 + S.length by omega, d5]; rfl
-    · rw [show L + 13 + S.length + 4 = L + 17 + S.length by omega, d6]; rfl
-  have c2 : skipW c (L + 21 + S.length + V.length) (· != W1.equalChar) (L + 13 + S.length + W1.valueLength) =
-      .ok (L + 18 + S.length) := by
-    rw [show W1.valueLength = 5 by decide, show L + 13 + S.length + 5 = L + 18 + S.length by omega]
-    exact skipW_run c _ _ 0 (L + 18 + S.length) (by intro i hi; omega) (by omega) (Or.inr ⟨61, d7, by decide⟩)
-  have dd2 : doSkipW c (L + 21 + S.length + V.length) (· == W1.spaceChar) (L + 18 + S.length) = .ok (L + 19 + S.length) := by
-    have := skipW_run c (L + 21 + S.length + V.length) (· == W1.spaceChar) 0 (L + 18 + S.length + 1)
-      (by intro i hi; omega) (by omega)
-      (Or.inr ⟨34, by rw [show L + 18 + S.length + 1 + 0 = L + 19 + S.length by omega]; exact d8, by decide⟩)
-    simp only [doSkipW, this]
-    congr 1
-    omega
-  have ee2 : doSkipW c (L + 21 + S.length + V.length) (· != 34) (L + 19 + S.length) = .ok (L + 20 + S.length + V.length) := by
-    have := skipW_run c (L + 21 + S.length + V.length) (· != 34) V.length (L + 19 + S.length + 1)
-      (by
-        intro i hi
-        refine ⟨V[i], by rw [show L + 19 + S.length + 1 + i = L + 20 + S.length + i by omega]; exact ht.v i hi, ?_⟩
-        have := hV V[i] (List.getElem_mem hi)
-        simpa using this)
-      (by omega)
-      (Or.inr ⟨34, by rw [show L + 19 + S.length + 1 + V.length = L + 20 + S.length + V.length by omega]; exact e0, by decide⟩)
-    simp only [doSkipW, this]
-    congr 1
-    omega
-  have hvo : trunc bits_LoopTag_ValueOffset (L + 19 + S.length + 1 - L) = 20 + S.length := by
-    simp only [trunc, show bits_LoopTag_ValueOffset = 8 by decide]; omega
-  have hvl : trunc bits_LoopTag_ValueLength (L + 20 + S.length + V.length - (L + 19 + S.length + 1)) = V.length := by
-    simp only [trunc, show bits_LoopTag_ValueLength = 8 by decide]; omega
-  simp only [hsv, show L + 11 + S.length + 1 < L + 21 + S.length + V.length by omega, if_true, a2,
-    show L + 13 + S.length < L + 21 + S.length + V.length by omega, rd_some c _ 118 d2,
-    show W1.valueChar = 118 by decide, show ¬ ((118 : Nat) = 115) by decide,
-    if_false, b2, c2, dd2,
-    show L + 19 + S.length < L + 21 + S.length + V.length by omega, rd_some c _ 34 d8, ee2, hvo, hvl,
-    show ¬ (L + 20 + S.length + V.length + 1 < L + 21 + S.length + V.length) by omega]
-
-
-/-- `parseLoopAttributes` on the printed attribute ` value="V"` of a top-level loop without `set` -/
-theorem pla_print0L (c : List Nat) (L : Nat) (V : List Nat)
-    (hh : ∀ i (hi : i < 8), c[L + 5 + i]? = [32, 118, 97, 108, 117, 101, 61, 34][i]?)
-    (hv : ∀ i (hi : i < V.length), c[L + 13 + i]? = some V[i])
-    (hq : c[L + 13 + V.length]? = some 34)
-    (hV : ∀ x ∈ V, x ≠ 34) (fuel lv : Nat) (hV8 : V.length < 256) (ch : List LoopRef) :
-    parseLoopAttributes c (L + 14 + V.length) ch (fuel + 1) (L + 5) .none
-        ({ off := L, level := lv } : LoopFields) =
-      .ok { off := L, level := lv, valueOff := 13, valueLen := V.length } := by
-  have c5 : c[L + 5]? = some 32 := hh 0 (by omega)
-  have c6 : c[L + 6]? = some 118 := hh 1 (by omega)
-  have c7 : c[L + 7]? = some 97 := hh 2 (by omega)
-  have c8 : c[L + 8]? = some 108 := hh 3 (by omega)
-  have c9 : c[L + 9]? = some 117 := hh 4 (by omega)
-  have c10 : c[L + 10]? = some 101 := hh 5 (by omega)
-  have c11 : c[L + 11]? = some 61 := hh 6 (by omega)
-  have c12 : c[L + 12]? = some 34 := hh 7 (by omega)
-  have a1 : skipW c (L + 14 + V.length) (· == W1.spaceChar) (L + 5) = .ok (L + 6) := by
-    apply skipW_run c _ _ 1 (L + 5)
-    · intro i hi
-      have : i = 0 := by omega
-      subst this
-      exact ⟨32, c5, by decide⟩
-    · omega
-    · right; exact ⟨118, c6, by decide⟩
-  have b1 : andEqualAt (decide (L + 14 + V.length - (L + 6) > W1.valueLength)) c (L + 6) W1.valueStr = .ok true := by
-    have : decide (L + 14 + V.length - (L + 6) > W1.valueLength) = true := by
-      simp only [show W1.valueLength = 5 by decide, decide_eq_true_eq]; omega
-    simp only [andEqualAt, this, if_true]
-    apply isEqualAt_true
-    intro i hi
-    have hi5 : i < 5 := by simpa [show W1.valueStr = [118, 97, 108, 117, 101] by decide] using hi
-    have : i = 0 ∨ i = 1 ∨ i = 2 ∨ i = 3 ∨ i = 4 := by omega
-    rcases this with h | h | h | h | h <;> subst h
-    · rw [show L + 6 + 0 = L + 6 by omega, c6]; rfl
-    · rw [show L + 6 + 1 = L + 7 by omega, c7]; rfl
-    · rw [show L + 6 + 2 = L + 8 by omega, c8]; rfl
-    · rw [show L + 6 + 3 = L + 9 by omega, c9]; rfl
-    · rw [show L + 6 + 4 = L + 10 by omega, c10]; rfl
-  have c1 : skipW c (L + 14 + V.length) (· != W1.equalChar) (L + 6 + W1.valueLength) = .ok (L + 11) := by
-    rw [show W1.valueLength = 5 by decide]
-    exact skipW_run c _ _ 0 (L + 11) (by intro i hi; omega) (by omega) (Or.inr ⟨61, c11, by decide⟩)
-  have dd1 : doSkipW c (L + 14 + V.length) (· == W1.spaceChar) (L + 11) = .ok (L + 12) := by
-    exact skipW_run c _ _ 0 (L + 12) (by intro i hi; omega) (by omega) (Or.inr ⟨34, c12, by decide⟩)
-  have ee1 : doSkipW c (L + 14 + V.length) (· != 34) (L + 12) = .ok (L + 13 + V.length) := by
-    apply skipW_run c _ _ V.length (L + 13)
-    · intro i hi
-      refine ⟨V[i], hv i hi, ?_⟩
-      have := hV V[i] (List.getElem_mem hi)
-      simpa using this
-    · omega
-    · right; exact ⟨34, hq, by decide⟩
-  have hvo : trunc bits_LoopTag_ValueOffset (L + 12 + 1 - L) = 13 := by
-    simp only [trunc, show bits_LoopTag_ValueOffset = 8 by decide]; omega
-  have hvl : trunc bits_LoopTag_ValueLength (L + 13 + V.length - (L + 12 + 1)) = V.length := by
-    simp only [trunc, show bits_LoopTag_ValueLength = 8 by decide]; omega
-  simp only [parseLoopAttributes, a1, bind, Except.bind, show L + 6 < L + 14 + V.length by omega, if_true,
-    rd_some c (L + 6) 118 c6, show W1.setSortChar = 115 by decide, show W1.valueChar = 118 by decide,
-    show ¬ ((118 : Nat) = 115) by decide, if_false, b1, pure, Except.pure, c1, dd1,
-    show L + 12 < L + 14 + V.length by omega, rd_some c (L + 12) 34 c12, ee1, hvo, hvl,
-    show ¬ (L + 13 + V.length + 1 < L + 14 + V.length) by omega]
-
-
-/-- `stepLoop` on a printed header `<loop` ++ `Hm` ++ `>` whose attribute scan gives `f0` -/
-theorem stepLoop_genL (c pre Hm rest : List Nat)
-    (hc : c = pre ++ (LOOPW ++ (Hm ++ ([62] ++ rest))))
-    (hn : c.length + 16 < 4294967296) (hHm : plainL Hm) (hgt : ∀ x ∈ Hm, x ≠ 62) (hlen : Hm.length + 6 < 65536)
-    (ch : List LoopRef) (stk : List (Frame R)) (acc : List (Tag R)) (f0 : LoopFields)
-    (hpla : parseLoopAttributes c (pre.length + 5 + Hm.length) ch (pre.length + 5 + Hm.length + 2) (pre.length + 5) .none
-      ({ off := pre.length, level := trunc bits_LoopTag_Level stk.length } : LoopFields) = .ok f0)
-    (hoff0 : f0.off = pre.length)
-    (o1 m1 : Nat) (hnext : next c (pre.length + 6 + Hm.length) = .ok (o1, m1)) :
-    stepLoop c (stAtL ch stk acc (pre.length + 5) 7) =
-      .ok (stAtL (⟨f0.off + f0.valueOff, f0.valueLen, f0.level⟩ :: ch)
-        (.loop acc { f0 with contentOff := 6 + Hm.length } ch :: stk) [] o1 m1) := by
-  have hp62 : plainL [62] := by intro x hx; simp at hx; subst hx; unfold plainU; decide
-  have hc5 : c = (pre ++ LOOPW) ++ ((Hm ++ [62]) ++ rest) := by
-    rw [hc]; simp [List.append_assoc]
-  have hrun := next_run c _ _ rest hc5 (plainL_append hHm hp62)
-  have hl5 : (pre ++ LOOPW).length = pre.length + 5 := by simp [LOOPW]
-  have hl62 : (Hm ++ [62]).length = Hm.length + 1 := by simp
-  rw [hl5, hl62, show pre.length + 5 + (Hm.length + 1) = pre.length + 6 + Hm.length by omega, hnext] at hrun
-  have hle : pre.length + 6 + Hm.length ≤ c.length := by
-    rw [hc]; simp [LOOPW]; omega
-  obtain ⟨o', m', hn', _, hge, _, _⟩ := next_safe_total c _ hle
-  rw [hnext] at hn'
-  simp only [Except.ok.injEq, Prod.mk.injEq] at hn'
-  obtain ⟨rfl, rfl⟩ := hn'
-  have h1 : finderNext c (stAtL ch stk acc (pre.length + 5) 7) = .ok (stAtL ch stk acc o1 m1) :=
-    finderNext_stAtL c ch stk acc _ 7 _ _ hrun
-  have hc6 : c = (pre ++ LOOPW) ++ (Hm ++ ([62] ++ rest)) := by rw [hc]; simp [List.append_assoc]
-  have hgt62 : c[pre.length + 5 + Hm.length]? = some 62 := by
-    have := get_after (pre ++ LOOPW) Hm 62 rest
-    rw [hl5] at this
-    rw [hc6]; exact this
-  have hsk : skipW c o1 (· != W1.multiLineLastChar) (pre.length + 5) = .ok (pre.length + 5 + Hm.length) := by
-    apply skipW_run c o1 (· != W1.multiLineLastChar) Hm.length (pre.length + 5)
-    · intro i hi
-      have hmid : ∀ x ∈ Hm, (x != W1.multiLineLastChar) = true := by
-        intro x hx
-        have h62 : W1.multiLineLastChar = 62 := by decide
-        simp only [h62, bne_iff_ne, ne_eq]
-        exact hgt x hx
-      have hpl := all_at (fun x => (x != W1.multiLineLastChar) = true) (pre ++ LOOPW) Hm ([62] ++ rest) hmid i hi
-      rw [hl5] at hpl
-      rw [hc6]; exact hpl
-    · omega
-    · right; exact ⟨62, hgt62, by decide⟩
-  have hoff : (stAtL ch stk acc (pre.length + 5) 7 : PState R).off = pre.length + 5 := rfl
-  have hoff1 : (stAtL ch stk acc o1 m1 : PState R).off = o1 := rfl
-  have hch : (stAtL ch stk acc o1 m1 : PState R).loopChain = ch := rfl
-  have hstk : (stAtL ch stk acc o1 m1 : PState R).stack = stk := rfl
-  have h5 : W1.loopPrefixLength = 5 := by decide
-  have hco : trunc bits_LoopTag_ContentOffset (pre.length + 5 + Hm.length + W1.multiLineSuffixLength - pre.length) =
-      6 + Hm.length := by
-    simp only [trunc, show bits_LoopTag_ContentOffset = 16 by decide, show W1.multiLineSuffixLength = 1 by decide]
-    omega
-  simp only [stepLoop, hoff, h1, bind, Except.bind, hoff1, h5, Nat.add_sub_cancel, hsk,
-    show pre.length + 5 + Hm.length < o1 by omega, if_true, hch, hstk, hpla, hco]
-  rfl
-
-
-theorem stepLoopEnd_printL (c : List Nat) (ch : List LoopRef) (ref : LoopRef) (acc sub : List (Tag R)) (f : LoopFields)
-    (stk : List (Frame R)) (q o' m' : Nat) (hq : f.off + f.contentOff ≤ q)
-    (hnext : next c (q + 7) = .ok (o', m')) :
-    stepLoopEnd c (stAtL (ref :: ch) (.loop acc f ch :: stk) sub (q + 7) 8) =
-      .ok (stAtL ch stk (acc ++ [.loop sub { f with endOff := q }]) o' m') := by
-  have h7 : W1.loopSuffixLength = 7 := by decide
-  simp only [stepLoopEnd, stAtL, h7, Nat.add_sub_cancel, pure, Except.pure, bind, Except.bind,
-    show ¬ (q < f.off + f.contentOff) by omega, if_false, finderNext, hnext]
-
-
-/-! ### the chain of enclosing loops -/
-
-/-- one enclosing loop: where its value name stands, the name, its level -/
-structure LoopD where
-  start : Nat
-  V : List Nat
-  lv : Nat
-
-def LoopD.ref (d : LoopD) : LoopRef := ⟨d.start, d.V.length, d.lv⟩
-def refsD (D : List LoopD) : List LoopRef := D.map LoopD.ref
-
-/-- every enclosing loop's value name stands in the content at its recorded place and holds no `}` and no `"` -/
-def ChainD (c : List Nat) (D : List LoopD) : Prop :=
-  ∀ d ∈ D, (∃ B R, c = B ++ (d.V ++ R) ∧ B.length = d.start) ∧ (∀ x ∈ d.V, x ≠ 125 ∧ x ≠ 34)
-
-/-- the first (innermost) loop whose value name is a prefix of `X`: (`IDLength`, `Level`) -/
-def findV : List LoopD → List Nat → Option (Nat × Nat)
-  | [], _ => none
-  | d :: r, X => if d.V.isPrefixOf X then some (d.V.length, d.lv) else findV r X
-
-theorem isEqualRange_prefS (c : List Nat) : ∀ (V X A B R : List Nat), c = A ++ X → c = B ++ (V ++ R) →
-    (∃ (j : Nat) (s : Nat), X[j]? = some s ∧ ∀ x ∈ V, x ≠ s) →
-    isEqualRange c V.length A.length B.length = .ok (V.isPrefixOf X) := by
-  intro V
-  induction V with
-  | nil => intro X A B R _ _ _; simp [isEqualRange]
-  | cons v V' ih =>
-    intro X A B R h1 h2 hstop
-    obtain ⟨j, s, hj, hs⟩ := hstop
-    cases X with
-    | nil => simp at hj
-    | cons x X' =>
-      have ha : c[A.length]? = some x := by rw [h1]; simp
-      have hb : c[B.length]? = some v := by rw [h2]; simp
-      simp only [List.length_cons, isEqualRange, rd_some c _ x ha, rd_some c _ v hb, bind, Except.bind]
-      by_cases hxv : x = v
-      · subst hxv
-        simp only [if_true]
-        have hj0 : j ≠ 0 := by
-          intro h0; subst h0
-          simp at hj
-          exact hs x (List.mem_cons_self ..) hj
-        have := ih X' (A ++ [x]) (B ++ [x]) R (by rw [h1]; simp) (by rw [h2]; simp)
-          ⟨j - 1, s, by
-            have : j = (j - 1) + 1 := by omega
-            rw [this] at hj; simpa using hj, fun y hy => hs y (List.mem_cons_of_mem _ hy)⟩
-        simp only [List.length_append, List.length_cons, List.length_nil, Nat.zero_add] at this
-        rw [this]
-        simp [List.isPrefixOf]
-      · simp only [hxv, if_false]
-        have : (v == x) = false := by simpa using fun h => hxv h.symm
-        simp [List.isPrefixOf, this]
-
-theorem checkLoopVariable_D (c : List Nat) (A X : List Nat) (h1 : c = A ++ X)
-    (hstop : ∃ (j : Nat) (s : Nat), X[j]? = some s ∧ (s = 125 ∨ s = 34)) :
-    ∀ (D : List LoopD), ChainD c D → checkLoopVariable c A.length (refsD D) = .ok (findV D X) := by
-  intro D
-  induction D with
-  | nil => intro _; rfl
-  | cons d r ih =>
-    intro hD
-    obtain ⟨⟨B, Rr, hB, hBl⟩, hV⟩ := hD d (List.mem_cons_self ..)
-    obtain ⟨j, s, hj, hs⟩ := hstop
-    have hpre := isEqualRange_prefS c d.V X A B Rr h1 hB
-      ⟨j, s, hj, fun x hx => by rcases hs with h | h <;> subst h; exact (hV x hx).1; exact (hV x hx).2⟩
-    rw [hBl] at hpre
-    simp only [refsD, List.map_cons, LoopD.ref, checkLoopVariable, hpre, bind, Except.bind, findV]
-    cases d.V.isPrefixOf X
-    · simp only [Bool.false_eq_true, if_false]
-      exact ih (fun x hx => hD x (List.mem_cons_of_mem _ hx))
-    · simp
-
-theorem isPrefixOf_stopS (s : Nat) : ∀ (V pa rest : List Nat), (∀ x ∈ V, x ≠ s) →
-    V.isPrefixOf (pa ++ s :: rest) = V.isPrefixOf pa := by
-  intro V
-  induction V with
-  | nil => intro pa rest _; simp [List.isPrefixOf]
-  | cons v V' ih =>
-    intro pa rest hV
-    cases pa with
-    | nil =>
-      have : (v == s) = false := by simpa using hV v (List.mem_cons_self ..)
-      simp [List.isPrefixOf, this]
-    | cons a pa' =>
-      simp only [List.cons_append, List.isPrefixOf]
-      rw [ih pa' rest (fun y hy => hV y (List.mem_cons_of_mem _ hy))]
-
-theorem findV_stop (c : List Nat) (s : Nat) (hs : s = 125 ∨ s = 34) (pa rest : List Nat) :
-    ∀ (D : List LoopD), ChainD c D → findV D (pa ++ s :: rest) = findV D pa := by
-  intro D
-  induction D with
-  | nil => intro _; rfl
-  | cons d r ih =>
-    intro hD
-    have hV := (hD d (List.mem_cons_self ..)).2
-    simp only [findV]
-    rw [isPrefixOf_stopS s d.V pa rest (fun x hx => by rcases hs with h | h <;> subst h; exact (hV x hx).1; exact (hV x hx).2),
-      ih (fun x hx => hD x (List.mem_cons_of_mem _ hx))]
-
-/-- the variable record of a path at `off` under the chain -/
-def refD (D : List LoopD) (off : Nat) (pa : List Nat) : VarRef := mkV (findV D pa) off pa.length
-
-/-- the expression list `parse` stores for the text `[a, b)` under a loop chain -/
-def itemsAtC (cfg : ScanCfg R) (c : List Nat) (ch : List LoopRef) (a b : Nat) : List (Item R) :=
-  match exprs cfg c ch a b with
-  | .ok l => l
-  | .error _ => []
-
-def tagsOfD (cfg : ScanCfg R) (c : List Nat) (D : List LoopD) (p : Nat) : List Seg → List (Tag R)
-  | [] => []
-  | .text s :: r => tagsOfD cfg c D (p + s.length) r
-  | .var pa :: r => .var (refD D (p + 5) pa) :: tagsOfD cfg c D (p + 5 + pa.length + 1) r
-  | .raw pa :: r => .raw (refD D (p + 5) pa) :: tagsOfD cfg c D (p + 5 + pa.length + 1) r
-  | .math e :: r =>
-    .math (itemsAtC cfg c (refsD D) (p + 6) (p + 6 + e.length)) p (p + 6 + e.length + 1) ::
-      tagsOfD cfg c D (p + 6 + e.length + 1) r
-
-
-/-- a run of segments under any loop chain -/
-theorem parseMain_segsL (cfg : ScanCfg R) (c : List Nat) (hn : c.length + 16 < 4294967296)
-    (D : List LoopD) (hD : ChainD c D) (stk : List (Frame R)) (post : List Nat) :
-    ∀ (segs : List Seg) (pre : List Nat) (acc : List (Tag R)) (fuel o m o' m' : Nat),
-      c = pre ++ (printSegs segs ++ post) → (∀ s ∈ segs, s.ok) →
-      next c pre.length = .ok (o, m) →
-      next c (pre.length + (printSegs segs).length) = .ok (o', m') →
-      parseMain cfg c (fuel + nTags segs) (stAtL (refsD D) stk acc o m) =
-        parseMain cfg c fuel (stAtL (refsD D) stk (acc ++ tagsOfD cfg c D pre.length segs) o' m') := by
-  intro segs
-  induction segs with
-  | nil =>
-    intro pre acc fuel o m o' m' hc _ hnext hfin
-    simp only [printSegs, List.length_nil, Nat.add_zero] at hfin
-    rw [hnext] at hfin
-    simp only [Except.ok.injEq, Prod.mk.injEq] at hfin
-    obtain ⟨rfl, rfl⟩ := hfin
-    simp [nTags, tagsOfD]
-  | cons sg rest ih =>
-    intro pre acc fuel o m o' m' hc hok hnext hfin
-    have hokr : ∀ s ∈ rest, s.ok := fun s hs => hok s (List.mem_cons_of_mem _ hs)
-    have hsg := hok sg (List.mem_cons_self ..)
-    have hvar : ∀ (raw : Bool) (w pa : List Nat) (mid : Nat), w.length = 5 →
-        c = pre ++ ((w ++ pa ++ [125]) ++ (printSegs rest ++ post)) → plainL pa → 0 < pa.length → pa.length ≤ 255 →
-        mid ≠ 0 →
-        (∀ st : PState R, st.mtch = mid → step cfg c st = stepVar c st raw) →
-        next c (pre.length + ((w ++ pa ++ [125]) ++ printSegs rest).length) = .ok (o', m') →
-        parseMain cfg c (fuel + nTags rest + 1) (stAtL (refsD D) stk acc (pre.length + 5) mid) =
-          parseMain cfg c fuel (stAtL (refsD D) stk
-            (acc ++ ((if raw then Tag.raw (refD D (pre.length + 5) pa) else Tag.var (refD D (pre.length + 5) pa)) ::
-              tagsOfD cfg c D (pre.length + 5 + pa.length + 1) rest)) o' m') := by
-      intro raw w pa mid hw hc' hp h0 h255 hmid hdisp hfin'
-      have hlen_le : pre.length + 5 + pa.length + 1 ≤ c.length := by rw [hc']; simp [hw]; omega
-      obtain ⟨o1, m1, hn1, _⟩ := next_safe_total c (pre.length + 5 + pa.length + 1) hlen_le
-      have hcA : c = (pre ++ w) ++ (pa ++ 125 :: (printSegs rest ++ post)) := by
-        rw [hc']; simp [List.append_assoc]
-      have hlA : (pre ++ w).length = pre.length + 5 := by simp [hw]
-      have hck := checkLoopVariable_D c (pre ++ w) _ hcA ⟨pa.length, 125, by simp, Or.inl rfl⟩ D hD
-      rw [hlA, findV_stop c 125 (Or.inl rfl) pa _ D hD] at hck
-      have hstep := stepVar_segL c hn raw pre pa (printSegs rest ++ post) w hw hc' hp h0 h255
-        (refsD D) stk acc mid o1 m1 hn1 _ hck
-      rw [parseMain_step cfg c _ _ _ (by simpa [stAtL] using hmid) ((hdisp _ rfl).trans hstep)]
-      have := ih (pre ++ (w ++ pa ++ [125]))
-        (acc ++ [if raw then Tag.raw (refD D (pre.length + 5) pa) else Tag.var (refD D (pre.length + 5) pa)])
-        fuel o1 m1 o' m' (by rw [hc']; simp [List.append_assoc]) hokr
-        (by simp only [List.length_append, List.length_cons, List.length_nil, hw]
-            rw [show pre.length + (5 + pa.length + (0 + 1)) = pre.length + 5 + pa.length + 1 by omega]
-            exact hn1)
-        (by rw [← hfin']; congr 1; simp [List.length_append]; omega)
-      have hL : (pre ++ (w ++ pa ++ [125])).length = pre.length + 5 + pa.length + 1 := by simp [hw]; omega
-      rw [hL] at this
-      simp only [refD] at this ⊢
-      rw [this]
-      simp [List.append_assoc]
-    cases sg with
-    | text s =>
-      simp only [Seg.ok] at hsg
-      simp only [printSegs, printSeg] at hc hfin
-      have hskip : next c pre.length = next c (pre.length + s.length) := by
-        apply next_skip c s.length pre.length (by rw [hc]; simp)
-        intro i hi
-        have := plain_at pre s (printSegs rest ++ post) hsg i hi
-        rw [hc]; simpa [List.append_assoc] using this
-      have := ih (pre ++ s) acc fuel o m o' m' (by rw [hc]; simp [List.append_assoc]) hokr
-        (by rw [List.length_append, ← hskip]; exact hnext)
-        (by rw [← hfin]; congr 1; simp [List.length_append]; omega)
-      simpa [tagsOfD, nTags, List.length_append] using this
-    | var pa =>
-      simp only [Seg.ok] at hsg
-      obtain ⟨hp, h0, h255⟩ := hsg
-      simp only [printSegs, printSeg] at hc hfin
-      have hat : next c pre.length = .ok (pre.length + 5, 2) := by
-        have g := fun i (hi : i < 5) => get_mid pre [123, 118, 97, 114, 58] (pa ++ [125] ++ (printSegs rest ++ post)) i (by simpa using hi)
-        have hc' : c = pre ++ ([123, 118, 97, 114, 58] ++ (pa ++ [125] ++ (printSegs rest ++ post))) := by
-          rw [hc]; simp [List.append_assoc]
-        apply next_at_var c pre.length (by omega)
-        · have := g 0 (by omega); rw [hc']; simpa using this
-        · have := g 1 (by omega); rw [hc']; simpa using this
-        · have := g 2 (by omega); rw [hc']; simpa using this
-        · have := g 3 (by omega); rw [hc']; simpa using this
-        · have := g 4 (by omega); rw [hc']; simpa using this
-      rw [hat] at hnext
-      simp only [Except.ok.injEq, Prod.mk.injEq] at hnext
-      obtain ⟨rfl, rfl⟩ := hnext
-      have := hvar false [123, 118, 97, 114, 58] pa 2 rfl (by rw [hc]; simp [List.append_assoc]) hp h0 h255
-        (by decide)
-        (by intro st hst; simp only [step, hst]; first | done | rfl) (by rw [← hfin])
-      rw [show fuel + nTags (Seg.var pa :: rest) = fuel + nTags rest + 1 by simp [nTags]; omega]
-      simpa [tagsOfD] using this
-    | raw pa =>
-      simp only [Seg.ok] at hsg
-      obtain ⟨hp, h0, h255⟩ := hsg
-      simp only [printSegs, printSeg] at hc hfin
-      have hat : next c pre.length = .ok (pre.length + 5, 3) := by
-        have g := fun i (hi : i < 5) => get_mid pre [123, 114, 97, 119, 58] (pa ++ [125] ++ (printSegs rest ++ post)) i (by simpa using hi)
-        have hc' : c = pre ++ ([123, 114, 97, 119, 58] ++ (pa ++ [125] ++ (printSegs rest ++ post))) := by
-          rw [hc]; simp [List.append_assoc]
-        apply next_at_raw c pre.length (by omega)
-        · have := g 0 (by omega); rw [hc']; simpa using this
-        · have := g 1 (by omega); rw [hc']; simpa using this
-        · have := g 2 (by omega); rw [hc']; simpa using this
-        · have := g 3 (by omega); rw [hc']; simpa using this
-        · have := g 4 (by omega); rw [hc']; simpa using this
-      rw [hat] at hnext
-      simp only [Except.ok.injEq, Prod.mk.injEq] at hnext
-      obtain ⟨rfl, rfl⟩ := hnext
-      have := hvar true [123, 114, 97, 119, 58] pa 3 rfl (by rw [hc]; simp [List.append_assoc]) hp h0 h255
-        (by decide)
-        (by intro st hst; simp only [step, hst]; first | done | rfl) (by rw [← hfin])
-      rw [show fuel + nTags (Seg.raw pa :: rest) = fuel + nTags rest + 1 by simp [nTags]; omega]
-      simpa [tagsOfD] using this
-    | math e =>
-      simp only [Seg.ok] at hsg
-      simp only [printSegs, printSeg] at hc hfin
-      have hat : next c pre.length = .ok (pre.length + 6, 4) := by
-        have g := fun i (hi : i < 6) => get_mid pre [123, 109, 97, 116, 104, 58] (e ++ [125] ++ (printSegs rest ++ post)) i (by simpa using hi)
-        have hc' : c = pre ++ ([123, 109, 97, 116, 104, 58] ++ (e ++ [125] ++ (printSegs rest ++ post))) := by
-          rw [hc]; simp [List.append_assoc]
-        apply next_at_math c pre.length (by omega)
-        · have := g 0 (by omega); rw [hc']; simpa using this
-        · have := g 1 (by omega); rw [hc']; simpa using this
-        · have := g 2 (by omega); rw [hc']; simpa using this
-        · have := g 3 (by omega); rw [hc']; simpa using this
-        · have := g 4 (by omega); rw [hc']; simpa using this
-        · have := g 5 (by omega); rw [hc']; simpa using this
-      rw [hat] at hnext
-      simp only [Except.ok.injEq, Prod.mk.injEq] at hnext
-      obtain ⟨rfl, rfl⟩ := hnext
-      have hlen_le : pre.length + 6 + e.length + 1 ≤ c.length := by rw [hc]; simp; omega
-      obtain ⟨o1, m1, hn1, _⟩ := next_safe_total c (pre.length + 6 + e.length + 1) hlen_le
-      obtain ⟨items', hex⟩ := Qentem.Expr.parseTop_total
-        ({ cfg with loopVar := loopVarPure c (refsD D) } : ScanCfg R) c (pre.length + 6) (pre.length + 6 + e.length) (by omega)
-      have hex' : exprs cfg c (refsD D) (pre.length + 6) (pre.length + 6 + e.length) = .ok items' := hex
-      have hstep := stepMath_segL cfg c (refsD D) hn pre e (printSegs rest ++ post) [123, 109, 97, 116, 104, 58] rfl
-        (by rw [hc]; simp [List.append_assoc]) hsg stk acc o1 m1 hn1 items' hex'
-      rw [show fuel + nTags (Seg.math e :: rest) = (fuel + nTags rest) + 1 by simp [nTags]; omega]
-      have hd : step cfg c (stAtL (refsD D) stk acc (pre.length + 6) 4) = stepMath cfg c (stAtL (refsD D) stk acc (pre.length + 6) 4) := by
-        simp only [step, stAtL]; rfl
-      rw [parseMain_step cfg c _ _ _ (by simp [stAtL]) (hd.trans hstep)]
-      have := ih (pre ++ ([123, 109, 97, 116, 104, 58] ++ e ++ [125]))
-        (acc ++ [Tag.math items' pre.length (pre.length + 6 + e.length + 1)])
-        fuel o1 m1 o' m' (by rw [hc]; simp [List.append_assoc]) hokr
-        (by simp only [List.length_append, List.length_cons, List.length_nil]
-            rw [show pre.length + (6 + e.length + (0 + 1)) = pre.length + 6 + e.length + 1 by omega]
-            exact hn1)
-        (by rw [← hfin]; congr 1; simp [List.length_append]; omega)
-      have hL : (pre ++ ([123, 109, 97, 116, 104, 58] ++ e ++ [125])).length = pre.length + 6 + e.length + 1 := by
-        simp; omega
-      rw [hL] at this
-      rw [this]
-      simp [tagsOfD, itemsAtC, hex', List.append_assoc]
-
-/-! ### `stepLoop` on a printed header under any chain -/
-
-/-- `ValueOffset` of the printed header -/
-def voOf (S : List Nat) : Nat := if S.isEmpty then 13 else 20 + S.length
-
-/-- the `Set` record of the printed header under the chain -/
-def setOf (D : List LoopD) (p : Nat) (S : List Nat) : VarRef :=
-  if S.isEmpty then ⟨0, 0, 0, 0⟩ else mkV (findV D S) (p + 11) S.length
-
-/-- what `stepLoop` records for the printed header at `p` (without `endOff`) -/
-def loopFG (D : List LoopD) (p lv : Nat) (S V : List Nat) : LoopFields :=
-  { off := p, level := lv, set := setOf D p S, valueOff := voOf S, valueLen := V.length,
-    contentOff := 6 + (hdrOf S V).length }
-
-/-- side conditions on the two attribute texts of a printed loop -/
-structure HdrOk (S V : List Nat) : Prop where
-  s : plainL S
-  s34 : ∀ x ∈ S, x ≠ 34
-  sgt : ∀ x ∈ S, x ≠ 62
-  slen : S.length < 236
-  v : plainL V
-  v34 : ∀ x ∈ V, x ≠ 34
-  vgt : ∀ x ∈ V, x ≠ 62
-  vlen : V.length < 256
-
-theorem hdrOf_len (S V : List Nat) : (hdrOf S V).length = (if S.isEmpty then 9 else 16 + S.length) + V.length := by
-  unfold hdrOf
-  cases S <;> simp <;> omega
-
-theorem stepLoop_hdr (c pre S V rest : List Nat)
-    (hc : c = pre ++ (LOOPW ++ (hdrOf S V ++ ([62] ++ rest)))) (hn : c.length + 16 < 4294967296)
-    (hh : HdrOk S V) (D : List LoopD) (hD : ChainD c D) (stk : List (Frame R)) (acc : List (Tag R)) (o1 m1 : Nat)
-    (hnext : next c (pre.length + 6 + (hdrOf S V).length) = .ok (o1, m1)) :
-    stepLoop c (stAtL (refsD D) stk acc (pre.length + 5) 7) =
-      .ok (stAtL (refsD (⟨pre.length + voOf S, V, trunc bits_LoopTag_Level stk.length⟩ :: D))
-        (.loop acc (loopFG D pre.length (trunc bits_LoopTag_Level stk.length) S V) (refsD D) :: stk) [] o1 m1) ∧
-    ChainD c (⟨pre.length + voOf S, V, trunc bits_LoopTag_Level stk.length⟩ :: D) := by
-  have hHm := plainL_hdr S V hh.s hh.v
-  have hgt := nogt_hdr S V hh.sgt hh.vgt
-  have hlen := hdrOf_len S V
-  by_cases hSe : S = []
-  · subst hSe
-    have hhd : hdrOf [] V = [32, 118, 97, 108, 117, 101, 61, 34] ++ V ++ [34] := by simp [hdrOf]
-    simp only [List.isEmpty_nil, if_true] at hlen
-    have hcl : c = (pre ++ LOOPW) ++ ([32, 118, 97, 108, 117, 101, 61, 34] ++ (V ++ ([34] ++ ([62] ++ rest)))) := by
-      rw [hc, hhd]; simp [List.append_assoc]
-    have hl5 : (pre ++ LOOPW).length = pre.length + 5 := by simp [LOOPW]
-    have hl13 : (pre ++ LOOPW ++ [32, 118, 97, 108, 117, 101, 61, 34]).length = pre.length + 13 := by simp [LOOPW]
-    have hcv : c = (pre ++ LOOPW ++ [32, 118, 97, 108, 117, 101, 61, 34]) ++ (V ++ ([34] ++ ([62] ++ rest))) := by
-      rw [hcl]; simp [List.append_assoc]
-    have hpla := pla_print0L c pre.length V
-      (by
-        intro i hi
-        have := get_mid (pre ++ LOOPW) [32, 118, 97, 108, 117, 101, 61, 34] (V ++ ([34] ++ ([62] ++ rest))) i (by simpa using hi)
-        rw [hl5] at this
-        rw [hcl]; exact this)
-      (by
-        intro i hi
-        have := get_at (pre ++ LOOPW ++ [32, 118, 97, 108, 117, 101, 61, 34]) V ([34] ++ ([62] ++ rest)) i hi
-        rw [hl13] at this
-        rw [hcv]; exact this)
-      (by
-        have := get_after (pre ++ LOOPW ++ [32, 118, 97, 108, 117, 101, 61, 34]) V 34 ([62] ++ rest)
-        rw [hl13] at this
-        rw [hcv]; exact this)
-      hh.v34 (pre.length + 5 + (hdrOf [] V).length + 1) (trunc bits_LoopTag_Level stk.length) hh.vlen (refsD D)
-    rw [show pre.length + 14 + V.length = pre.length + 5 + (hdrOf [] V).length by rw [hlen]; omega] at hpla
-    have hs := stepLoop_genL c pre (hdrOf [] V) rest hc hn hHm hgt (by rw [hlen]; have := hh.vlen; have := hh.slen; omega) (refsD D) stk acc _ hpla rfl o1 m1 hnext
-    refine ⟨?_, ?_⟩
-    · rw [hs]; simp [refsD, LoopD.ref, loopFG, voOf, setOf]
-    · intro d hd
-      rcases List.mem_cons.mp hd with h | h
-      · subst h
-        exact ⟨⟨_, _, hcv, by rw [hl13]; simp [voOf]⟩, fun x hx => ⟨(hh.v x hx).2.2, hh.v34 x hx⟩⟩
-      · exact hD d h
-  · have hSi : S.isEmpty = false := by cases S <;> simp_all
-    simp only [hSi, Bool.false_eq_true, if_false] at hlen
-    have hhd : hdrOf S V = [32, 115, 101, 116, 61, 34] ++ S ++ [34] ++ ([32, 118, 97, 108, 117, 101, 61, 34] ++ V ++ [34]) := by
-      simp [hdrOf, hSi]
-    have hcl : c = pre ++ (LH1 ++ (S ++ (LH2 ++ (V ++ (LH3 ++ rest))))) := by
-      rw [hc, hhd]; simp [LH1, LH2, LH3, LOOPW, List.append_assoc]
-    have ht := loopText_of c pre S V rest hcl
-    have hcs : c = (pre ++ LH1) ++ (S ++ 34 :: ([32, 118, 97, 108, 117, 101, 61, 34] ++ (V ++ (LH3 ++ rest)))) := by
-      rw [hcl]; simp [LH1, LH2, List.append_assoc]
-    have hl11 : (pre ++ LH1).length = pre.length + 11 := by simp [LH1]
-    have hck := checkLoopVariable_D c (pre ++ LH1) _ hcs ⟨S.length, 34, by simp, Or.inr rfl⟩ D hD
-    rw [hl11, findV_stop c 34 (Or.inr rfl) S _ D hD] at hck
-    have hpla := pla_printL c pre.length S V ht hh.s34 hh.v34 (pre.length + 5 + (hdrOf S V).length)
-      (trunc bits_LoopTag_Level stk.length) hh.slen hh.vlen (refsD D) _ hck
-    rw [show pre.length + 21 + S.length + V.length = pre.length + 5 + (hdrOf S V).length by rw [hlen]; omega] at hpla
-    have hs := stepLoop_genL c pre (hdrOf S V) rest hc hn hHm hgt (by rw [hlen]; have := hh.vlen; have := hh.slen; omega) (refsD D) stk acc _ hpla rfl o1 m1 hnext
-    have hcv : c = (pre ++ (LH1 ++ (S ++ LH2))) ++ (V ++ (LH3 ++ rest)) := by
-      rw [hcl]; simp [List.append_assoc]
-    refine ⟨?_, ?_⟩
-    · rw [hs]; simp [refsD, LoopD.ref, loopFG, voOf, setOf, hSi]
-    · intro d hd
-      rcases List.mem_cons.mp hd with h | h
-      · subst h
-        exact ⟨⟨_, _, hcv, by simp [voOf, hSi, LH1, LH2]; omega⟩, fun x hx => ⟨(hh.v x hx).2.2, hh.v34 x hx⟩⟩
-      · exact hD d h
-
 /-! ### trees with loops -/
 
 mutual
@@ -875,6 +18,8 @@ inductive GT where
   | segs (l : List Seg)
   | ifc (e : List Nat) (body : GTs) (tail : GTail)
   | loop (S V : List Nat) (body : GTs)
+  | iif (e : List Nat) (ts fs : Option (List Seg))
+  | svar (path : List Nat) (args : List Seg)
 inductive GTs where
   | nil
   | cons (b : GT) (r : GTs)
@@ -889,6 +34,8 @@ def printGT : GT → List Nat
   | .segs l => printSegs l
   | .ifc e body tail => IFOPEN ++ e ++ [34, 62] ++ printGTs body ++ printGTail tail
   | .loop S V body => LOOPW ++ (hdrOf S V ++ ([62] ++ (printGTs body ++ LOOPEND)))
+  | .iif e ts fs => printIif e ts fs
+  | .svar pa ar => printSvar pa ar
 def printGTs : GTs → List Nat
   | .nil => []
   | .cons b r => printGT b ++ printGTs r
@@ -903,6 +50,8 @@ def GT.toTpls : GT → List Tpl
   | .segs l => segsTpl l
   | .ifc e body tail => [.ifc ((some e, gtsTpl body) :: tailBrG tail)]
   | .loop S V body => [.loop S V (gtsTpl body)]
+  | .iif e ts fs => [.iif e (ts.map segsTpl) (fs.map segsTpl)]
+  | .svar pa ar => [.svar pa (segsTpl ar)]
 def gtsTpl : GTs → List Tpl
   | .nil => []
   | .cons b r => b.toTpls ++ gtsTpl r
@@ -923,6 +72,13 @@ theorem printGT_eq : ∀ (b : GT), printList b.toTpls = printGT b
   | .loop S V body => by
     simp only [GT.toTpls, printGT, printList, printTpl, printGTs_eq body, hdrOf, List.append_nil]
     cases S <;> simp [str, LOOPW, LOOPEND, List.append_assoc]
+  | .iif e ts fs => by
+    cases ts <;> cases fs <;>
+      simp [GT.toTpls, printGT, printList, printTpl, printIif, attrText, IIF1, TRUEA, FALSEA, str, printSegs_eq,
+        List.append_assoc]
+  | .svar pa ar => by
+    simp only [GT.toTpls, printGT, printList, printTpl, printArgs_segs, printSvar, SVAR1]
+    simp [str, List.append_assoc]
 theorem printGTs_eq : ∀ (bs : GTs), printList (gtsTpl bs) = printGTs bs
   | .nil => rfl
   | .cons b r => by simp only [gtsTpl, printGTs, printList_append, printGT_eq b, printGTs_eq r]
@@ -944,6 +100,10 @@ def GT.ok : GT → Prop
   | .segs l => ∀ s ∈ l, s.ok
   | .ifc e body tail => (∀ x ∈ e, x ≠ 34) ∧ GTs.ok body ∧ GTail.ok tail
   | .loop S V body => HdrOk S V ∧ GTs.ok body
+  | .iif e ts fs => MathOk e ∧ (∀ x ∈ e, x ≠ 34) ∧ ValOk ts ∧ ValOk fs ∧ (ts ≠ none ∨ fs ≠ none) ∧
+      (printIif e ts fs).length < 65536
+  | .svar pa ar => plainL pa ∧ (∀ x ∈ pa, x ≠ 44) ∧ 0 < pa.length ∧ pa.length ≤ 255 ∧
+      (∀ a ∈ ar, a.ok ∧ a.isArg) ∧ ar ≠ [] ∧ ar.length ≤ 10
 def GTs.ok : GTs → Prop
   | .nil => True
   | .cons b r => GT.ok b ∧ GTs.ok r
@@ -959,6 +119,8 @@ def costGT : GT → Nat
   | .segs l => nTags l
   | .ifc _ body tail => 1 + costGTs body + costGTail tail
   | .loop _ _ body => 1 + costGTs body + 1
+  | .iif _ ts fs => 2 + nTagsVal ts + nTagsVal fs
+  | .svar _ ar => 2 + nTags (argSegs ar)
 def costGTs : GTs → Nat
   | .nil => 0
   | .cons b r => costGT b + costGTs r
@@ -981,6 +143,8 @@ def tagsGT (cfg : ScanCfg R) (c : List Nat) (D : List LoopD) (dep : Nat) (p : Na
         (p + 6 + (hdrOf S V).length) body)
       { loopFG D p (trunc bits_LoopTag_Level dep) S V with
         endOff := p + 6 + (hdrOf S V).length + (printGTs body).length }]
+  | .iif e ts fs => [iifTag cfg c D p e ts fs]
+  | .svar pa ar => [svarTag cfg c D p pa ar]
 def tagsGTs (cfg : ScanCfg R) (c : List Nat) (D : List LoopD) (dep : Nat) (p : Nat) : GTs → List (Tag R)
   | .nil => []
   | .cons b r => tagsGT cfg c D dep p b ++ tagsGTs cfg c D dep (p + (printGT b).length) r
@@ -1120,6 +284,19 @@ theorem parse_gt (cfg : ScanCfg R) (c : List Nat) (hn : c.length + 16 < 42949672
     rw [parseMain_step cfg c _ _ _ (by simp [stAtL]) (hd7.trans hstep), hbody_run,
       parseMain_step cfg c _ _ _ (by simp [stAtL]) ((hd8 _ rfl).trans hclose)]
     simp [tagsGT]
+  | .iif e ts fs, D, stk, pre, post, acc, fuel, o, m, o', m', hc, hok, hD, hnext, hfin => by
+    simp only [GT.ok] at hok
+    obtain ⟨he, he34, hts, hfs, hone, hsz⟩ := hok
+    simp only [printGT] at hc hfin
+    have := parse_iif cfg c hn D hD stk e ts fs pre post acc fuel o m o' m' hc he he34 hts hfs hone hsz hnext hfin
+    simpa [costGT, tagsGT, stAtL, stAtC] using this
+  | .svar pa ar, D, stk, pre, post, acc, fuel, o, m, o', m', hc, hok, hD, hnext, hfin => by
+    simp only [GT.ok] at hok
+    obtain ⟨hp, hp44, hp0, hp255, hargs, hne, _⟩ := hok
+    simp only [printGT] at hc hfin
+    have := parse_svar cfg c hn D hD stk pa ar pre post acc fuel o m o' m' hc hp hp44 hp0 hp255
+      (fun a ha => (hargs a ha).1) hne hnext hfin
+    simpa [costGT, tagsGT, stAtL, stAtC] using this
 theorem parse_gts (cfg : ScanCfg R) (c : List Nat) (hn : c.length + 16 < 4294967296) :
     ∀ (bs : GTs) (D : List LoopD) (stk : List (Frame R)) (pre post : List Nat) (acc : List (Tag R)) (fuel o m o' m' : Nat),
       c = pre ++ (printGTs bs ++ post) → bs.ok → ChainD c D →
@@ -1288,6 +465,19 @@ theorem costGT_le : ∀ (b : GT), costGT b ≤ (printGT b).length
   | .loop S V body => by
     have := costGTs_le body
     simp [costGT, printGT, LOOPW, LOOPEND]; omega
+  | .iif e ts fs => by
+    have h1 : nTagsVal ts ≤ tLen ts := by
+      cases ts with
+      | none => simp [nTagsVal, tLen]
+      | some l => have := nTags_le l; simp only [nTagsVal, tLen]; omega
+    have h2 : nTagsVal fs ≤ fLen fs := by
+      cases fs with
+      | none => simp [nTagsVal, fLen]
+      | some l => have := nTags_le l; simp only [nTagsVal, fLen]; omega
+    simp only [costGT, printGT, printIif_len]; omega
+  | .svar pa ar => by
+    have := nTags_le (argSegs ar)
+    simp only [costGT, printGT, printSvar_len]; omega
 theorem costGTs_le : ∀ (bs : GTs), costGTs bs ≤ (printGTs bs).length
   | .nil => by simp [costGTs]
   | .cons b r => by
